@@ -192,4 +192,10 @@ theorem accepted_up_down {strict : Bool} {g g' : G} {xs ys zs : List Out}
       | reject c => simp [chk] at e1; subst e1; exact List.mem_cons_of_mem _ (ih _ gb e2 h1 h2)
   exact key ys g2 g3 h5 hup hup3
 
+/-- every run from the initial state passes the (non-strict) checker. -/
+theorem run_accepted (cfg : Cfg) (rib : Bool) (evs : List Event) :
+    ∃ g, chkAll false g0 (run (init cfg rib) evs).2 = some g := by
+  obtain ⟨g, h, _⟩ := run_acc (strict := false) evs _ g0 (rel_init cfg rib) (inv_init cfg rib) (by simp)
+  exact ⟨g, h⟩
+
 end Exa.Session
